@@ -69,18 +69,64 @@ def scan_assumptions(text):
     return sorted(set(found))
 
 
-def build(repo, outdir, with_contracts=True):
+def build(repo, outdir, with_contracts=True, inferred=None):
     ex = extract_parser.extract(repo)
     prelude = open(os.path.join(VERIF, 'contracts/parser_prelude.rs')).read()
     stubs = open(os.path.join(VERIF, 'contracts/parser_stubs.rs')).read()
     top = open(os.path.join(VERIF, 'contracts/parser_top.rs')).read()
     fns, loops = weave.parse_spec(open(os.path.join(VERIF, 'contracts/parser.spec')).read())
-    text, linemap, info = weave.assemble(ex, prelude, fns, loops, stubs, top)
+    text, linemap, info = weave.assemble(ex, prelude, fns, loops, stubs, top, inferred)
     os.makedirs(outdir, exist_ok=True)
     unit = os.path.join(outdir, 'unit.rs')
     open(unit, 'w').write(text)
     json.dump(linemap, open(os.path.join(outdir, 'LINEMAP.json'), 'w'))
     return ex, fns, loops, text, linemap, info, unit
+
+
+def verify_with_inference(repo, outdir):
+    """Build + verify.  Functions without an @fn entry (helpers somebody added or renamed) get candidate
+    contracts that are pruned Houdini-style: a requires candidate that fails at a call site and an ensures
+    candidate the body does not establish are dropped, and the unit is verified again, until nothing changes.
+    The last run - in which every remaining clause of an inferred contract is proved - is the result."""
+    inferred = None
+    log = []
+    for rnd in range(10):
+        ex, fns, loops, text, linemap, info, unit = build(repo, outdir, True, inferred)
+        res = verus(unit)
+        if not info['defaulted']:
+            break
+        if inferred is None:
+            inferred = {}
+            for it in ex['items']:
+                if it.kind == 'fn' and it.name in info['defaulted']:
+                    c = weave.candidate_contract(it)
+                    inferred[it.name] = {'requires': list(c['requires']), 'ensures': list(c['ensures'])}
+        changed = False
+        for f in res['failures']:
+            loc = locate(linemap, f['line'])
+            fn = loc[0] if loc else None
+            if f['message'].startswith('postcondition') and fn in inferred:
+                for cand in list(inferred[fn]['ensures']):
+                    if norm(cand) == f['site'] or any(norm(cand) == c['text'] for c in f['clauses']):
+                        inferred[fn]['ensures'].remove(cand)
+                        log.append('round %d: %s: dropped ensures candidate `%s` (not established by the body)' % (rnd, fn, cand))
+                        changed = True
+            if f['message'].startswith('precondition'):
+                mm = re.match(r'^(?:\w+\.)?(\w+)\(', f['site'])
+                callee = mm.group(1) if mm else None
+                for key in (callee, 'Parser::%s' % callee):
+                    if key in inferred:
+                        for cand in list(inferred[key]['requires']):
+                            cn = norm(cand)
+                            if any(cn == c['text'] for c in f['clauses']):
+                                inferred[key]['requires'].remove(cand)
+                                log.append('round %d: %s: dropped requires candidate `%s` (fails at a call site in %s)' % (rnd, key, cand, fn))
+                                changed = True
+        if not changed:
+            break
+    info['inferred_contracts'] = inferred or {}
+    info['inference_log'] = log
+    return ex, fns, loops, text, linemap, info, unit, res
 
 
 def run_reach(ex, fns, text, outdir):
@@ -192,9 +238,11 @@ def main(prop, tier):
     if tier == 'quick':
         canaries = [c for c in canaries if c['tier'] == 'quick']
     try:
-        ex, fns, loops, text, linemap, info, unit = build(REPO, os.path.join(sd, 'unit'))
+        ex, fns, loops, text, linemap, info, unit, res0 = verify_with_inference(REPO, os.path.join(sd, 'unit'))
     except (AnchorLost, weave.SpecError) as e:
         return undecided(prop, tier, t0, 'extraction anchor lost: %s' % e)
+    except Undecided as e:
+        return undecided(prop, tier, t0, str(e))
     assumptions_found = scan_assumptions(text)
     allowed = [norm(l) for l in open(os.path.join(VERIF, 'contracts/ALLOWED_ASSUMPTIONS')).read().split('\n')
                if l.strip() and not l.startswith('# ')]
@@ -202,7 +250,7 @@ def main(prop, tier):
 
     want_driver = True
     with cf.ThreadPoolExecutor(max_workers=8) as pool:
-        fut_main = pool.submit(verus, unit)
+        fut_main = pool.submit(lambda: res0)
         fut_reach = pool.submit(run_reach, ex, fns, text, os.path.join(sd, 'reach'))
         fut_can = [pool.submit(run_canary, c, i) for i, c in enumerate(canaries)]
         fut_drv = pool.submit(witness.build_driver) if want_driver else None
@@ -351,6 +399,8 @@ def main(prop, tier):
         'functions_with_default_frame_contract': info['defaulted'],
         'loops_under_contract': info['loops_contracted'],
         'contract_anchors_no_longer_in_the_tree': info['dropped_anchors'],
+        'inferred_contracts_for_functions_without_entry': info.get('inferred_contracts', {}),
+        'inference_log': info.get('inference_log', []),
         'back_end': 'Verus 0.2026.09.13 / Z3',
         'solver_time_ms': res['smt_ms'],
         'verus_total_ms': res['total_ms'],
